@@ -116,7 +116,31 @@ fn flagged_pool() -> Vec<&'static str> {
     ]
 }
 
+/// Two over-long sentences with the same first words and the same word count but different endings.
+pub fn long_twins(rng: &mut Rng, corpus: &Corpus) -> (String, String) {
+    let n = rng.range(42, 50);
+    let shared = rng.range(15, 30);
+    let head: Vec<String> = (0..shared).map(|_| rng.pick(&corpus.vocab).to_lowercase()).collect();
+    let mk = |rng: &mut Rng| {
+        let mut v = head.clone();
+        while v.len() < n {
+            v.push(rng.pick(&corpus.vocab).to_lowercase());
+        }
+        let mut s = v.join(" ");
+        if let Some(f) = s.get_mut(0..1) {
+            f.make_ascii_uppercase();
+        }
+        s
+    };
+    (mk(rng), mk(rng))
+}
+
 fn build_doc(rng: &mut Rng, corpus: &Corpus) -> String {
+    if rng.chance(1, 12) {
+        let (a, b) = long_twins(rng, corpus);
+        let sep = *rng.pick(&[". ", ".\n\n"]);
+        return format!("{a}{sep}{b}.");
+    }
     let pool = flagged_pool();
     let n = rng.range(2, 6);
     let mut s = String::new();
